@@ -112,3 +112,88 @@ def main_divergence():
 
 if __name__ == "__main__":
     main()
+
+
+def _compare(tag, build, prepare, element, variable, index, values, logs, fails, **kwargs):
+    """run_timeseries with a ConstControl profile on net[element].loc[index, variable] vs. fresh power flows of every step"""
+    import contextlib
+    import io
+    import logging
+    logging.disable(logging.CRITICAL)
+    net = build()
+    prepare(net)
+    ct.ConstControl(net, element, variable, element_index=[index], profile_name=["v"], data_source=DFData(pd.DataFrame({"v": values})))
+    ow = OutputWriter(net, output_path=None, log_variables=list(logs))
+    try:
+        with contextlib.redirect_stderr(io.StringIO()), contextlib.redirect_stdout(io.StringIO()):
+            run_timeseries(net, time_steps=range(len(values)), verbose=False, **kwargs)
+    except Exception as e:
+        fails.append(f"{tag}: run_timeseries raised {type(e).__name__}: {str(e)[:100]} (every fresh power flow converges)")
+        return
+    ref = build()
+    prepare(ref)
+    ref.controller = ref.controller.iloc[0:0]
+    for k, v in enumerate(values):
+        ref[element].at[index, variable] = v
+        pp.runpp(ref, **kwargs)
+        for tab, col in logs:
+            key = f"{tab}.{col}"
+            if key not in ow.output:
+                fails.append(f"{tag}: requested variable {key} was not recorded")
+                return
+            got = ow.output[key].loc[k].values.astype(float)
+            want = ref[tab][col].values.astype(float)
+            if got.shape != want.shape or not np.allclose(got, want, rtol=1e-7, atol=1e-7, equal_nan=True):
+                fails.append(f"{tag}: {key} at time step {k}: recorded {np.round(got, 5).tolist()}, fresh power flow {np.round(want, 5).tolist()}")
+                return
+
+
+def main_more():
+    """several logged variables of one result table (batch reading), open branch switches together with branch parameter profiles, a net
+    that carries the ppc of an earlier power flow with another topology"""
+    import pandapower.networks as pn
+    fails = []
+    nothing = lambda net: None
+    for logs in ([("res_bus", "vm_pu"), ("res_bus", "va_degree")], [("res_line", "i_ka"), ("res_line", "loading_percent")],
+                 [("res_trafo", "i_hv_ka"), ("res_trafo", "loading_percent")], [("res_bus", "vm_pu"), ("res_line", "loading_percent"), ("res_line", "i_ka")]):
+        _compare(f"load profile on simple_four_bus_system, logging {logs}", pn.simple_four_bus_system, nothing, "load", "p_mw", 0,
+                 [0.01, 0.02, 0.04], logs, fails)
+
+    def standby():
+        net = pp.create_empty_network()
+        b0 = pp.create_bus(net, 110.); b1 = pp.create_bus(net, 20.); b2 = pp.create_bus(net, 20.)
+        pp.create_ext_grid(net, b0)
+        pp.create_transformer(net, b0, b1, "25 MVA 110/20 kV"); pp.create_transformer(net, b0, b1, "25 MVA 110/20 kV")
+        pp.create_switch(net, b1, 1, et="t", closed=False)        # stand-by transformer, open at the lv side
+        pp.create_line(net, b1, b2, 5., "NA2XS2Y 1x240 RM/25 12/20 kV")
+        pp.create_line(net, b1, b2, 5., "NA2XS2Y 1x240 RM/25 12/20 kV")
+        pp.create_switch(net, b2, 1, et="l", closed=False)        # second line open at its far end
+        pp.create_load(net, b2, 8., 2.)
+        return net
+    logs = [("res_bus", "vm_pu"), ("res_trafo", "loading_percent"), ("res_line", "loading_percent")]
+    for kw in ({}, {"neglect_open_switch_branches": True}):
+        _compare(f"tap_pos profile with an open transformer / line switch in the net, {kw}", standby, nothing, "trafo", "tap_pos", 0,
+                 [0., 2., -3., 5.], logs, fails, **kw)
+        _compare(f"line length profile with an open transformer / line switch in the net, {kw}", standby, nothing, "line", "length_km", 0,
+                 [5., 8., 2.], logs, fails, **kw)
+
+    def ring():
+        net = pp.create_empty_network()
+        b = [pp.create_bus(net, 20.) for _ in range(4)]
+        pp.create_ext_grid(net, b[0])
+        for i in range(4):
+            pp.create_line(net, b[i], b[(i + 1) % 4], 2., "NA2XS2Y 1x240 RM/25 12/20 kV")
+        pp.create_switch(net, b[2], 2, et="l", closed=True)
+        pp.create_load(net, b[2], 1., 0.3)
+        return net
+
+    def earlier_pf_then_open(net):
+        pp.runpp(net)
+        net.switch.at[0, "closed"] = False
+    _compare("runpp, then a line switch is opened, then run_timeseries", ring, earlier_pf_then_open, "load", "p_mw", 0, [1., 2., 3.],
+             [("res_bus", "vm_pu"), ("res_line", "loading_percent")], fails)
+    for f in fails:
+        print("REPRODUCED:", f)
+    if not fails:
+        print("not reproduced: run_timeseries equals fresh power flows on all further replay cases")
+    sys.exit(1 if fails else 0)
